@@ -29,6 +29,7 @@ def run(ctx):
     cols(ctx)
     cleared(ctx)
     clear_buf(ctx)
+    reload_(ctx)
 
 
 # ------------------------------------------------------------------------------------------------ writers
@@ -443,3 +444,39 @@ def clear_buf(ctx):
             w |= s.writes
     R.require({"__corro_buffered_changes", "__corro_seq_bookkeeping"} <= w, "consumer-deletes-both", "", "clear_buffered_meta_loop deletes buffered rows and seq bookkeeping",
               fail_msg="clear_buffered_meta_loop deletes only %s" % sorted(w))
+
+
+def reload_(ctx):
+    """After a restart `partial.seqs` is rebuilt from __corro_seq_bookkeeping and decides (C03.trigger, run_root) whether a
+    buffered version is applied.  It must be rebuilt from exactly the stored ranges: one stored row -> one range."""
+    from . import C06
+    F = ctx.F
+    R = ctx.rule("C03.reload", "K6+K4", "at restart the received sequence ranges of a partial version are reloaded row by row, each row giving the range start_seq..=end_seq")
+    b = F.get("klukai_types::agent::BookedVersions::from_conn")
+    if not R.anchor(b, "from_conn", "fn BookedVersions::from_conn"):
+        return
+    sites = [s for s in sqlinv.inventory(F, [b]) if s.verb == "SELECT" and "__corro_seq_bookkeeping" in s.reads]
+    if not R.anchor(sites, "seq-select", "SELECT .. FROM __corro_seq_bookkeeping in from_conn"):
+        return
+    C06.raw_rows(F, R, b, sites, only={"__corro_seq_bookkeeping"})
+    try:
+        cols = sqlmini.select_columns(sites[0].sql)
+    except sqlmini.ParseError:
+        cols = []
+    # the range handed to insert_partial is RangeInclusive::new(row.get(i), row.get(j)) with i/j the positions of start_seq/end_seq
+    ip = [c for c in b.calls if c.f.endswith("BookedVersions::insert_partial")]
+    rn = [c for c in b.calls if c.f == "core::ops::range::RangeInclusive::<Idx>::new" and "CrsqlSeq" in c.self_ty]
+    if R.anchor(ip, "insert_partial", "bv.insert_partial(..) in from_conn") and R.anchor(rn, "seq-range", "start_seq..=end_seq construction") and cols:
+        c = rn[0]
+        idx = []
+        for a in c.args[:2]:
+            got = None
+            for o in flow.origins(b, op_place(a), at=(c.bb, "T"), stop=lambda cc: cc.name() == "get") if op_place(a) is not None else ():
+                if o.kind == "call" and o.call.name() == "get" and len(o.call.args) > 1:
+                    k = op_const(o.call.args[1])
+                    if k is not None and "v" in k:
+                        got = k["v"]
+            idx.append(got)
+        want = [cols.index("start_seq") if "start_seq" in cols else None, cols.index("end_seq") if "end_seq" in cols else None]
+        R.require(idx == want and None not in want, "range-from-row", c.where(), "the reloaded range is row[%s]..=row[%s] = start_seq..=end_seq" % tuple(idx),
+                  fail_msg="the reloaded range is built from row columns %s, but start_seq/end_seq are columns %s of the SELECT (%s)" % (idx, want, ", ".join(cols)))
